@@ -425,7 +425,7 @@ def r1_8(ctx: Ctx) -> RuleResult:
     for fn, call, subj, ks, murky in site_kinds(ctx):
         if class_of(fn) != "IndexSelector" or ks is None or not (ks <= {ARRAY}):
             continue
-        k = appended_part(call)
+        k = appended_part(call, fn.node)
         obj = kw(call, "obj")
         if isinstance(obj, ast.Await):
             obj = obj.value
